@@ -110,6 +110,7 @@ func TestVerif_C21_SentinelReplicas(t *testing.T) {
 		saveCase("c21sen", p)
 		rec := runSentinel(t, p)
 		if rec.Res.Frozen {
+			noteFrozen("c21sen", p, rec)
 			c.Inconclusive("virtual-clock-freeze")
 			return
 		}
@@ -221,6 +222,7 @@ func TestVerif_C21_StandaloneReplicas(t *testing.T) {
 		saveCase("c21sta", p)
 		rec := runStandalone(t, p)
 		if rec.Res.Frozen {
+			noteFrozen("c21sta", p, rec)
 			c.Inconclusive("virtual-clock-freeze")
 			return
 		}
